@@ -255,15 +255,15 @@ theorem toPField_dbName (g : AField) (c : String) (h : (toPField g).dbName = som
 
 /-- schema.go:253-266 — the field NAMED `ID` is found whatever its column is called: by its column when that is `id` /
     `ID`, else through the Go-name fallback of `LookUpField` -/
-theorem prioritize_id_field (fs : List AField) (i : Nat) (f : AField)
-    (hf : fs[i]? = some f) (hname : f.name = "ID")
+theorem prioritize_id_field (k : Bool) (fs : List AField) (i : Nat) (f : AField)
+    (hf : fs[i]? = some f) (hname : f.name = "ID") (hcol : k = true → f.dbName ≠ "")
     (huniq : ∀ (j : Nat) (g : AField), fs[j]? = some g → g.name = "ID" → j = i)
     (hnoid : ∀ (j : Nat) (g : AField), fs[j]? = some g → g.name ≠ "id")
     (hcols : ∀ (j : Nat) (g : AField), fs[j]? = some g → j ≠ i → g.dbName ≠ "id" ∧ g.dbName ≠ "ID")
     (hnopk : ∀ (j : Nat) (g : AField), fs[j]? = some g → g.primaryKey = false) :
-    (prioritize fs (parseReg (fs.map toPField)) (primsFrom fs 0 fs {} [])).2.2 = some i ∧
-    (prioritize fs (parseReg (fs.map toPField)) (primsFrom fs 0 fs {} [])).2.1 = [i] ∧
-    (prioritize fs (parseReg (fs.map toPField)) (primsFrom fs 0 fs {} [])).1 = setNth fs i { f with primaryKey := true } := by
+    (prioritize k fs (parseReg (fs.map toPField)) (primsFrom fs 0 fs {} [])).2.2 = some i ∧
+    (prioritize k fs (parseReg (fs.map toPField)) (primsFrom fs 0 fs {} [])).2.1 = [i] ∧
+    (prioritize k fs (parseReg (fs.map toPField)) (primsFrom fs 0 fs {} [])).1 = setNth fs i { f with primaryKey := true } := by
   obtain ⟨hA, _⟩ := parseReg_inv (fs.map toPField)
   obtain ⟨hN, hNB⟩ := parseReg_invN (fs.map toPField)
   have back : ∀ (j : Nat) (e : PField String), (fs.map toPField)[j]? = some e → ∃ g, fs[j]? = some g ∧ toPField g = e := by
@@ -327,9 +327,141 @@ theorem prioritize_id_field (fs : List AField) (i : Nat) (f : AField)
     rw [nth?_eq_getElem?, hf]
     simp [hnopk i f hf]
   have hn : nth? fs i = some f := by rw [nth?_eq_getElem?]; exact hf
+  have hhc : (k && !hasColumn fs i) = false := by
+    cases k with
+    | false => rfl
+    | true =>
+      have := hcol rfl
+      simp [hasColumn, hn, this]
   unfold prioritize
   rw [hcand, hprims]
-  simp [hnp, hn]
+  simp [hhc, hnp, hn]
+
+/-! ### the repair of finding F28 (`needCol = true`): the prioritized primary field has a column -/
+
+theorem primStep_sub (all : List AField) (st : Reg String) (prims : List Nat) (i : Nat) (f : AField) (j : Nat)
+    (h : j ∈ primStep all st prims i f) : j ∈ prims ∨ (j = i ∧ f.dbName ≠ "") := by
+  unfold primStep at h
+  split at h
+  · exact Or.inl h
+  · rename_i hne
+    have hne' : f.dbName ≠ "" := by simpa using hne
+    split at h
+    · split at h
+      · rcases List.mem_append.mp h with h | h
+        · exact Or.inl h
+        · exact Or.inr ⟨by simpa using h, hne'⟩
+      · exact Or.inl h
+    · split at h
+      · simp only at h
+        split at h
+        · rcases List.mem_append.mp h with h | h
+          · split at h
+            · exact Or.inl (List.mem_filter.mp h).1
+            · exact Or.inl h
+          · exact Or.inr ⟨by simpa using h, hne'⟩
+        · split at h
+          · exact Or.inl (List.mem_filter.mp h).1
+          · exact Or.inl h
+      · exact Or.inl h
+
+/-- the registration loop puts only column-backed fields into `PrimaryFields` (`if field.DBName != ""`) -/
+theorem primsFrom_cols (all : List AField) : ∀ (fs : List AField) (i : Nat) (st : Reg String) (prims : List Nat),
+    (∀ (k : Nat) (f : AField), nth? fs k = some f → nth? all (i + k) = some f) →
+    (∀ j ∈ prims, hasColumn all j = true) →
+    ∀ j ∈ primsFrom all i fs st prims, hasColumn all j = true := by
+  intro fs
+  induction fs with
+  | nil => intro i st prims _ hp j hj; exact hp j (by simpa [primsFrom] using hj)
+  | cons f fs ih =>
+    intro i st prims hsuf hp j hj
+    unfold primsFrom at hj
+    refine ih (i + 1) _ _ ?_ ?_ j hj
+    · intro k g hg
+      have := hsuf (k + 1) g (by simpa [nth?] using hg)
+      rw [show i + 1 + k = i + (k + 1) by omega]; exact this
+    · intro x hx
+      rcases primStep_sub all st prims i f x hx with h | ⟨hxi, hne⟩
+      · exact hp x h
+      · have := hsuf 0 f (by simp [nth?])
+        subst hxi
+        simp only [Nat.add_zero] at this
+        simp [hasColumn, this, hne]
+
+theorem hasColumn_setNth (fs : List AField) (p : Nat) (f g : AField) (hf : nth? fs p = some f) (hg : g.dbName = f.dbName)
+    (j : Nat) : hasColumn (setNth fs p g) j = hasColumn fs j := by
+  unfold hasColumn
+  rw [nth?_setNth]
+  by_cases hj : j = p
+  · subst hj; simp [hf, hg]
+  · simp [hj]
+
+theorem hasColumn_defaultsStep (fs : List AField) (prio : Option Nat) (j : Nat) :
+    hasColumn (defaultsStep fs prio).1 j = hasColumn fs j := by
+  unfold defaultsStep
+  cases prio with
+  | none => rfl
+  | some p =>
+    simp only
+    cases hp : nth? fs p with
+    | none => rfl
+    | some f =>
+      simp only
+      split
+      · exact hasColumn_setNth fs p f { f with hasDefault := true, autoInc := true } hp rfl j
+      · rfl
+
+/-- schema.go:253-280 WITH the repair of F28: whatever field ends up as the prioritized primary field — the conventional
+    `id` / `ID` candidate, the single tagged key, the auto-increment member of a composite key — is backed by a column -/
+theorem prioritize_has_column (fs : List AField) (st : Reg String) (prims : List Nat)
+    (hp : ∀ j ∈ prims, hasColumn fs j = true) (i : Nat)
+    (h : (prioritize true fs st prims).2.2 = some i) : hasColumn (prioritize true fs st prims).1 i = true := by
+  have fromPrims : ∀ (fs' : List AField) (ps : List Nat), (∀ j ∈ ps, hasColumn fs' j = true) →
+      (match ps with
+        | [i] => some i
+        | [] => none
+        | _ => ps.find? (fun i => ((nth? fs' i).map (·.autoInc)).getD false)) = some i → hasColumn fs' i = true := by
+    intro fs' ps hps hm
+    match ps, hps, hm with
+    | [], _, hm => cases hm
+    | [a], hps, hm =>
+      simp only [Option.some.injEq] at hm
+      subst hm; exact hps _ (by simp)
+    | a :: b :: l, hps, hm =>
+      simp only at hm
+      exact hps i (List.mem_of_find?_eq_some hm)
+  unfold prioritize at h ⊢
+  cases hc : keyCandidate st with
+  | none =>
+    simp only [hc] at h ⊢
+    exact fromPrims fs prims hp h
+  | some c =>
+    cases hcol : hasColumn fs c with
+    | false =>
+      simp only [hc, hcol, Bool.not_false, Bool.and_self, if_true] at h ⊢
+      exact fromPrims fs prims hp h
+    | true =>
+      simp only [hc, hcol, Bool.not_true, Bool.and_false, Bool.false_eq_true, if_false] at h ⊢
+      cases hpk : isPrimary fs c with
+      | true =>
+        simp only [hpk, if_true] at h ⊢
+        simp only [Option.some.injEq] at h
+        subst h; exact hcol
+      | false =>
+        simp only [hpk, Bool.false_eq_true, if_false] at h ⊢
+        cases he : prims.isEmpty with
+        | true =>
+          simp only [he, if_true] at h ⊢
+          simp only [Option.some.injEq] at h
+          subst h
+          cases hn : nth? fs c with
+          | none => simp [hasColumn, hn] at hcol
+          | some f =>
+            simp only
+            rw [hasColumn_setNth fs c f { f with primaryKey := true } hn rfl]; exact hcol
+        | false =>
+          simp only [he, Bool.false_eq_true, if_false] at h ⊢
+          exact fromPrims fs prims hp h
 
 /-- schema.go:292-304 for an integer key found by the convention: it ends up in `FieldsWithDefaultDBValue` -/
 theorem defaultsStep_lists_int_key (fs : List AField) (i : Nat) (f : AField) (hn : nth? fs i = some f)
